@@ -48,12 +48,14 @@ impl LinkS {
 opaque!(Attach, LinkFlow, Disposition, Transfer, Payload, AcqMarker, InputHandle, AttachErrorS, AttachExchangeS);
 pub enum LinkFrame { Attach(Attach), Flow(LinkFlow), Transfer { input_handle: InputHandle, performative: Transfer, payload: Payload }, Disposition(Disposition), Detach(Detach), Acquisition(AcqMarker) }
 /// `errs`: how many of the detaches taken from the channel so far carried an error
-pub struct Rx { pub got: Ghost<Seq<LinkFrame>>, pub errs: Ghost<nat> }
+/// `closed_seen`: the last recv() found the queue closed and empty (the session dropped the relay)
+pub struct Rx { pub got: Ghost<Seq<LinkFrame>>, pub errs: Ghost<nat>, pub closed_seen: Ghost<bool> }
 pub open spec fn detach_err(f: LinkFrame) -> nat { if f is Detach && f->Detach_0.error is Some { 1 } else { 0 } }
 impl Rx {
     #[verifier::external_body]
     pub fn recv(&mut self) -> (r: Option<LinkFrame>)
-        ensures (match r { Some(f) => final(self).got@ == old(self).got@.push(f) && final(self).errs@ == old(self).errs@ + detach_err(f), None => final(self).got@ == old(self).got@ && final(self).errs@ == old(self).errs@ }),
+        ensures (match r { Some(f) => final(self).got@ == old(self).got@.push(f) && final(self).errs@ == old(self).errs@ + detach_err(f), None => final(self).got@ == old(self).got@ && final(self).errs@ == old(self).errs@ && final(self).closed_seen@ }),
+            r is Some ==> !final(self).closed_seen@,
     { unimplemented!() }
 }
 /// `attaches` (ghost): how many attach frames this endpoint has queued
@@ -163,8 +165,9 @@ impl ErrInto<DetachError> for DetachError { open spec fn conv(self) -> DetachErr
         r is Ok ==> final(link_inner).incoming.got@.len() > old(link_inner).incoming.got@.len()
             && final(link_inner).incoming.got@.last() == LinkFrame::Detach(r->Ok_0),                                   // [C13.link.detach-returns-after-peer-answer] it returns Ok only with a detach actually received from the peer (other frames still in flight are skipped)
         r is Err ==> !(r->Err_0 is ClosedByRemote),
+        r is Err ==> final(link_inner).incoming.closed_seen@,                                                          // [C13.link.frames-in-flight-do-not-fail-the-detach] the wait for the peer's detach fails only when the link's queue is closed (the session is gone): a transfer, flow or disposition still in flight in front of the peer's detach is skipped, it is not an error -- `close()` / `detach()` with a delivery in flight still complete the handshake and report the peer's answer
         r is Ok ==> final(link_inner).incoming.errs@ == old(link_inner).incoming.errs@ + (if r->Ok_0.error is Some { 1nat } else { 0nat }),   // the first detach that arrives is the one returned
-//@@ loop 0
+//@@ loop 0 optional
         invariant
             link_inner.sent == old(link_inner).sent, link_inner.link == old(link_inner).link, link_inner.failures == old(link_inner).failures, link_inner.has_handle == old(link_inner).has_handle,
             link_inner.incoming.got@.len() >= old(link_inner).incoming.got@.len(),
